@@ -251,7 +251,58 @@ func partU(tier string, rep *lib.Report) (int, map[string]any) {
 			}
 		}
 	}
+	evals += lateRejection(rep)
 	return evals, map[string]any{"part_U_calls": evals, "part_U_valid_inputs_x_modes": accepted}
+}
+
+// lateIn has an optional property held in a value field whose zero value violates the property's constraint: the
+// raw input without it unserializes (to the zero value) and is rejected only by the validation that follows.
+type lateIn struct {
+	S string `json:"s"`
+	T string `json:"t"`
+}
+
+// lateRejection: an input the step's schema rejects at the validation stage is still a rejected INPUT - the handler
+// does not run and the error is an InvalidInputError, not the error of an output that was never produced.
+func lateRejection(rep *lib.Report) int {
+	calls := 0
+	in := schema.NewScopeSchema(schema.NewStructMappedObjectSchema[lateIn]("LateIn", map[string]*schema.PropertySchema{
+		"s": schema.NewPropertySchema(schema.NewStringSchema(ukit.I64(1), nil, nil), nil, false, nil, nil, nil, nil, nil),
+		"t": schema.NewPropertySchema(schema.NewStringSchema(nil, nil, nil), nil, true, nil, nil, nil, nil, nil),
+	}))
+	cs := schema.NewCallableSchema(schema.NewCallableStep[lateIn]("s", in,
+		map[string]*schema.StepOutputSchema{"success": schema.NewStepOutputSchema(outScope(), nil, false)}, nil,
+		func(_ context.Context, _ lateIn) (string, any) {
+			calls++
+			return "success", map[string]any{"message": "ran"}
+		}))
+	raw := map[string]any{"t": "x"}
+	what := "CallStep(run r1, step \"s\", {t: x}) on a struct-mapped input whose optional value field s (min length 1) is absent"
+	fail := func(sig, detail string) {
+		rep.Violate(sig, what+"\n"+detail, map[string]any{"part": "U-late", "scope": 0})
+	}
+	var err error
+	pan, val, stack := ukit.Call(func() { _, _, err = cs.CallStep(context.Background(), "r1", "s", raw) })
+	if pan {
+		fail(fmt.Sprintf("panic in %s: %s", lib.PanicSite(stack), lib.PanicClass(fmt.Sprint(val))), fmt.Sprint(val))
+		return 1
+	}
+	if err == nil {
+		// the schema accepts the input after all: then the handler must have run exactly once
+		if calls != 1 {
+			fail("handler not invoked exactly once for an accepted input", fmt.Sprintf("calls=%d", calls))
+		}
+		return 1
+	}
+	var inv schema.InvalidInputError
+	var outErr schema.InvalidOutputError
+	if calls != 0 {
+		fail("handler invoked although the input was rejected", fmt.Sprintf("calls=%d err=%v", calls, err))
+	}
+	if !errors.As(err, &inv) || errors.As(err, &outErr) {
+		fail("rejected input is not reported as InvalidInputError", fmt.Sprintf("error type %T: %v", err, err))
+	}
+	return 1
 }
 
 // ---- part S: see verif/harness/stepkit ----------------------------------------------------------------
@@ -284,7 +335,7 @@ func main() {
 			}
 			return 120 * time.Second
 		},
-		Rule: "part U: one callable step over each of 6 input scopes (map-based with defaults / presence rules, references, recursive references, one-of over references, struct-mapped) x every raw input of V(scope) x 5 handler behaviours (conforming, non-conforming data, wrongly typed data, undeclared output id, declared error output) x {existing, unknown} step id, plus 6 signal calls (valid, out-of-range data, wrongly typed data, unknown signal id, unknown step id, a handler declared for another step data type) per scope, compared with the reference interpreter (handler invocation count and argument, output id and serialized data, error types). Part S: CallStep / CallSignal for run ids r1, r2 issued by 2-4 (thorough 5) threads; every interleaving within the delay bound; initializer count, identity of the step data seen by step and signal handlers, and happens-before races on schema/ (sync shim + access events) are checked",
+		Rule: "part U: one callable step over each of 6 input scopes (map-based with defaults / presence rules, references, recursive references, one-of over references, struct-mapped) x every raw input of V(scope) x 5 handler behaviours (conforming, non-conforming data, wrongly typed data, undeclared output id, declared error output) x {existing, unknown} step id, plus an input rejected only at the validation stage (must still be an InvalidInputError with the handler not run), plus 6 signal calls (valid, out-of-range data, wrongly typed data, unknown signal id, unknown step id, a handler declared for another step data type) per scope, compared with the reference interpreter (handler invocation count and argument, output id and serialized data, error types). Part S: CallStep / CallSignal for run ids r1, r2 issued by 2-4 (thorough 5) threads; every interleaving within the delay bound; initializer count, identity of the step data seen by step and signal handlers, and happens-before races on schema/ (sync shim + access events) are checked",
 		Assumptions: []string{
 			"the error type for output data that violates the output schema is not pinned down by the property (any error is accepted)",
 			"scheduling points at the mutex operations of schema/step.go; access events as in C13",
